@@ -115,10 +115,14 @@ def judge_stream(data, opts, pipe=False):
     core.log_off()
     try:
         try:
-            items, exc = S.read_all(ts, opts, handler)
+            # under ERR_RAISE the reader is used on after each protocol error it raises
+            items, exc = S.read_all(ts, opts, handler, resume=opts.get("quitonerror") == 2,
+                                    limit=4 * len(data) + 50)
         except S.HarnessHang as err:
             return [(f"{PROP}|hang", f"reader did not terminate: {err}; stream {data[:40].hex()} "
                                      f"{S.opts_label(opts)}")]
+        if opts.get("quitonerror") == 2:
+            exc = next((e[1] for e in items if e[0] == "exc" and not S.is_protocol_error(e[1])), None)
         if exc is None:
             return []
         if opts.get("quitonerror") == 2 and S.is_protocol_error(exc):
